@@ -334,17 +334,38 @@ class XPathFunction(XPathToken):
             st1, st2 = sequence_types[-1], signature[-1]
             return is_sequence_type_restriction(st1, st2)
 
+    def bind_partial_function(self, tokens: list[XPathToken],
+                              context: ta.ContextType = None) -> 'XPathFunction':
+        """
+        Returns a new partial function item from a list of argument tokens that includes
+        placeholders. The fixed arguments are evaluated where the item is created and
+        the new item has its own placeholders.
+        """
+        func = copy(self)
+        func._items = [
+            copy(tk) if tk.symbol == '?' and not tk
+            else tk if isinstance(tk, ValueToken)
+            else ValueToken(self.parser, value=tk.evaluate(context))
+            for tk in tokens
+        ]
+        for name in ('evaluate', 'select', '_partial_evaluate', '_partial_select'):
+            func.__dict__.pop(name, None)  # bound to the original function
+        func.to_partial_function()
+        return func
+
     def to_partial_function(self) -> None:
         """Convert an XPath function to a partial function."""
         nargs = len([tk and not tk for tk in self._items if tk.symbol == '?'])
         assert nargs, "a partial function requires at least a placeholder token"
 
-        if self.label != 'partial function':
+        if 'evaluate' not in self.__dict__:
             def evaluate(context: ta.ContextType = None) -> 'XPathFunction':
-                return self
+                if all(isinstance(tk, ValueToken) or tk.symbol == '?' and not tk for tk in self):
+                    return self
+                return self.bind_partial_function(self._items, context)
 
             def select(context: ta.ContextType = None) -> Iterator['XPathFunction']:
-                yield self
+                yield evaluate(context)
 
             if self.__class__.evaluate is not XPathToken.evaluate:
                 setattr(self, '_partial_evaluate', self.evaluate)
